@@ -335,6 +335,9 @@ func (c *compiler) compile() (WarriorData, error) {
 	return c.metadata, nil
 }
 
+// maxForDepth is the deepest nesting of FOR blocks that is accepted.
+const maxForDepth = 12
+
 func CompileWarrior(r io.Reader, config SimulatorConfig) (WarriorData, error) {
 	lexer := newLexer(r)
 	tokens, err := lexer.Tokens()
@@ -365,10 +368,11 @@ func CompileWarrior(r io.Reader, config SimulatorConfig) (WarriorData, error) {
 		} else {
 			break
 		}
-		// every pass expands the outermost blocks, so this bounds the
-		// nesting depth (blocks produced by the expansion included)
+		// every pass expands the outermost blocks and reads the whole
+		// input, so this bounds the nesting depth, and with it the cost of
+		// the expansion relative to the size of the input
 		depth++
-		if depth > 1000 {
+		if depth > maxForDepth {
 			return WarriorData{}, fmt.Errorf("for loop depth exceeded")
 		}
 	}
